@@ -274,7 +274,8 @@ impl Gen {
                 if self.rng.chance(1, 4) { ivs.insert(0, self.variable()); }
                 let inner = Self::quant(Exists, ivs, Self::bin(Conjunction, e, self.formula(d)));
                 let body = if self.rng.chance(1, 2) { Self::bin(Conjunction, inner, self.formula(d)) } else { Self::bin(Conjunction, self.formula(d), inner) };
-                Self::quant(Exists, vec![z], body)
+                // one in five with the OTHER quantifier (the rewrite must not fire); read off the generator state, no draw
+                Self::quant(if self.rng.0 % 5 == 0 { Forall } else { Exists }, vec![z], body)
             }
             6 => {
                 // forall Z (exists I$i (I$i = Z and G) -> H)
@@ -284,7 +285,9 @@ impl Gen {
                 let inner = Self::quant(Exists, vec![i], Self::bin(Conjunction, e, self.formula(d)));
                 let mut zs = vec![z];
                 if self.rng.chance(1, 3) { zs.push(self.variable()); }
-                Self::quant(Forall, zs, Self::bin(Implication, inner, self.formula(d)))
+                let q = if self.rng.0 % 5 == 0 { Exists } else { Forall };
+                let c = if self.rng.0 % 11 == 0 { Disjunction } else { Implication };
+                Self::quant(q, zs, Self::bin(c, inner, self.formula(d)))
             }
             7 => {
                 // exists X Y (X = t and Y = t and F)
